@@ -64,6 +64,13 @@ K17 = [
         "lib.py": "{1} = 3\ndef show({0}): print('v', {0} * 2)\ndef double({0}): return {0} * 2",
         "main.py": "import lib\n{2} = 4\nlib.show({2})\nprint(lib.double({2}), {2} * 2)\n"}),
      lambda files, names: dict(api="use_function", path="lib.py", offset=_off(files, "lib.py", "show" if choose("which", 2) else "double"))),
+    # class-level statement after the last method (where does a module-level factory go?); static method local
+    (Skeleton("f11_factory_class_with_trailing_attribute", {
+        "main.py": "class Kls:\n    def __init__(self, {0}):\n        self.val = {0}\n    {1} = 1\n{2} = Kls(2)\nprint({2}.val, Kls.{1}, {2}.{1})\n"}),
+     lambda files, names: dict(api="introduce_factory", path="main.py", offset=_off(files, "main.py", "Kls"), name="create", global_factory=bool(choose("global_factory", 2)))),
+    (Skeleton("f12_local_to_field_in_staticmethod", {
+        "main.py": "class Kls:\n    @staticmethod\n    def meth({0}):\n        {1} = {0} + 1\n        return {1} * 2\n    def other(self, {0}):\n        {1} = {0} + 2\n        return {1}\nprint(Kls.meth(1), Kls().other(1))\n"}),
+     lambda files, names: dict(api="local_to_field", path="main.py", offset=_off(files, "main.py", "        ", 0, 8))),
     # the nested helper reads a variable of the enclosing function (a closure)
     (Skeleton("f09_method_object_closure", {
         "main.py": "def outer({0}):\n    {1} = {0} + 1\n    def helper({2}):\n        return {2} * {1}\n    return helper(2)\nprint(outer(1))\n"}),
